@@ -182,6 +182,13 @@ func (h *TwoPartyHandler) advance() {
 }
 
 func (h *TwoPartyHandler) CanAccept(msg *Message) bool {
+	h.mtx.Lock()
+	defer h.mtx.Unlock()
+	return h.canAccept(msg)
+}
+
+// canAccept is CanAccept for callers that already hold the lock.
+func (h *TwoPartyHandler) canAccept(msg *Message) bool {
 	r := h.round
 	if msg == nil {
 		return false
@@ -220,7 +227,7 @@ func (h *TwoPartyHandler) Accept(msg *Message) {
 		}
 	}()
 
-	if !h.CanAccept(msg) || h.err != nil || h.result != nil {
+	if !h.canAccept(msg) || h.err != nil || h.result != nil {
 		return
 	}
 
